@@ -27,6 +27,32 @@ enum {
 #define VERIF_HOST_BIG 0
 #endif
 
+/* C spellings of std::make_unsigned_t<T> / make_signed_t<T> / is_unsigned_v<T> for the integer types (T may itself be a macro) */
+#define VERIF_CAT_(a, b) a##b
+#define VERIF_CAT(a, b) VERIF_CAT_(a, b)
+#define UNSIGNED_OF(T) VERIF_CAT(UNSIGNED_OF_, T)
+#define SIGNED_OF(T) VERIF_CAT(SIGNED_OF_, T)
+#define UNSIGNED_OF_int8_t uint8_t
+#define UNSIGNED_OF_uint8_t uint8_t
+#define UNSIGNED_OF_int16_t uint16_t
+#define UNSIGNED_OF_uint16_t uint16_t
+#define UNSIGNED_OF_int32_t uint32_t
+#define UNSIGNED_OF_uint32_t uint32_t
+#define UNSIGNED_OF_int64_t uint64_t
+#define UNSIGNED_OF_uint64_t uint64_t
+#define UNSIGNED_OF_int unsigned
+#define UNSIGNED_OF_long unsigned long
+#define SIGNED_OF_int8_t int8_t
+#define SIGNED_OF_uint8_t int8_t
+#define SIGNED_OF_int16_t int16_t
+#define SIGNED_OF_uint16_t int16_t
+#define SIGNED_OF_int32_t int32_t
+#define SIGNED_OF_uint32_t int32_t
+#define SIGNED_OF_int64_t int64_t
+#define SIGNED_OF_uint64_t int64_t
+#define IS_UNSIGNED(T) (((T)-1) > 0)
+#define IS_SIGNED(T) (((T)-1) < 0)
+
 /* byte k (0 = least significant) of an integer value */
 #define VBYTE(x, k) ((uint8_t)(((uint64_t)(x)) >> (8 * (k))))
 /* byte at address p+i */
